@@ -557,7 +557,9 @@ class CircuitTemplate(AbstractBaseTemplate):
                 columns.append(key)
                 data.append(out)
         if multi_index:
-            columns = MultiIndex.from_tuples(columns)
+            # (a plain key next to tuple labels becomes a 1-tuple: `MultiIndex.from_tuples` would split the string into its
+            # characters)
+            columns = MultiIndex.from_tuples([c if isinstance(c, tuple) else (c,) for c in columns])
         results = DataFrame(data=np.asarray(data).T, columns=columns, index=time_vec)
 
         # store current state of the network
